@@ -665,8 +665,44 @@ def reorg_inv(F):
         def decide_if(n):
             return val(n["cond"])
 
+        def tail_variants(e, depth=0):
+            """variant names an enum-valued expression can evaluate to under the current case (If conditions decided by
+            `val` where possible); None = not recognised"""
+            e = peel(e)
+            if not isinstance(e, dict) or depth > 8:
+                return None
+            k_ = e.get("k")
+            if k_ == "Block":
+                if e.get("expr") is None:
+                    return None
+                return tail_variants(e["expr"], depth + 1)
+            if k_ == "If":
+                v_ = val(e["cond"])
+                if v_ is True:
+                    return tail_variants(e["then"], depth + 1)
+                if v_ is False:
+                    return tail_variants(e["else"], depth + 1) if "else" in e else None
+                a_ = tail_variants(e["then"], depth + 1)
+                b_ = tail_variants(e["else"], depth + 1) if "else" in e else None
+                return None if a_ is None or b_ is None else a_ | b_
+            if k_ == "Path" and (e.get("res") or {}).get("variant"):
+                return {e["res"]["variant"]}
+            if k_ in ("Call", "Struct") and ((e.get("fres") or {}).get("variant") or e.get("variant")):
+                return {(e.get("fres") or {}).get("variant") or e.get("variant")}
+            return None
+
         def select_arms(m):
             sc = peel(m.get("scrut") or {})
+            if sc.get("k") in ("Call", "MethodCall") and isinstance(sc.get("inlined"), dict):
+                # `match classify(&val, was_import) { Stay => .., ToLocals => .., .. }`: the helper's possible answers in this case
+                vs_ = tail_variants(sc["inlined"]["body"])
+                if vs_ is not None:
+                    out = []
+                    for i, arm in enumerate(m["arms"]):
+                        pv = {leaf.get("variant") for leaf in _alts(arm["pat"]) if leaf.get("variant")}
+                        if not pv or pv & vs_:
+                            out.append(i)
+                    return out
             if sc.get("k") != "Tup":
                 # `match was_import { true if .. => .., false if .. => .., _ => .. }`
                 v = val(sc)
@@ -1356,6 +1392,29 @@ def fresh_ids(F):
                 r.violate("%s | raw push onto %s" % (fn_["path"], rv["name"]), F.loc(fn_, c),
                           "%s pushes onto `%s` without taking the element's id from the collection's length first: whatever id the element carries is not its position, and every lookup by id (and the old→new id map built at encode) is off" % (fn_["name"], rv["name"]))
     r.count("raw_pushes", n_raw)
+    # --- ModuleImports::add: an import enters the list by being appended, on every path, exactly once; slots of the list
+    # are never re-used (the k-th import of a kind is the k-th function/global/memory of the prefix: R-COUPLED-IMPORT-ORDER)
+    ia = F.one_fn(name="add", self_adt="ModuleImports")
+    r.analysed.append(ia["path"])
+
+    def cl_imp(n_):
+        if n_.get("k") == "MethodCall" and n_["method"] in ("push", "insert", "swap", "swap_remove", "remove") and (place_path(n_["recv"]) or "") == "self.imports":
+            return "PUSH" if n_["method"] == "push" else "OTHER:" + n_["method"]
+        if n_.get("k") == "Assign":
+            l_ = n_["lhs"]
+            while isinstance(l_, dict) and l_.get("k") in ("Unary", "AddrOf"):
+                l_ = l_.get("a")
+            if isinstance(l_, dict) and l_.get("k") == "Index" and (place_path(l_["base"]) or "") == "self.imports":
+                return "OVERWRITE"
+            if isinstance(l_, dict) and l_.get("k") == "Field" and l_["name"] == "deleted" and "self.imports" in (place_path(l_) or ""):
+                return "REVIVE"
+        return None
+    evs_ = {ev for ev, st_ in normal_paths(paths(ia["body"], cl_imp))}
+    bad_ = sorted(ev for ev in evs_ if list(ev) != ["PUSH"])
+    r.ob(not bad_, {"ModuleImports::add": "every path appends exactly once", "paths": len(evs_)})
+    if bad_:
+        r.violate("%s | not append-only %s" % (ia["path"], "/".join(bad_[0]) or "no push"), F.loc(ia),
+                  "ModuleImports::add has a path that does not simply append the new import (%s): an import placed into an existing slot sits in front of imports added earlier, while the function/global/memory created for it is ordered behind them — the two orders no longer agree" % (list(bad_[0]) or "returns without pushing"))
     # --- id bases while parsing: `K(base + i)` in code reachable from parse, where `base` is a counter field that no
     # parse-reachable code ever writes, builds ids from a constant (the field's initial value): the local entities then
     # take ids 0.. although imports of that kind already hold them
